@@ -4,7 +4,7 @@
 From Coq Require Import List String NArith ZArith Bool.
 From Piko Require Import Base.Maps Base.Strs Gossip.Types Gossip.Local Gossip.Apply.
 From Piko Require Import GossipP.LocalP GossipP.ApplyP GossipP.WatchP GossipP.MemberP.
-From Piko Require Import FD.FD Compose.LiveFD.
+From Piko Require Import FD.FD Compose.LiveFD GossipP.RediscoverP.
 Import ListNotations.
 Open Scope string_scope. Open Scope list_scope. Open Scope N_scope.
 
@@ -120,6 +120,15 @@ Example C11_live_fd_example :
 Proof. exact livefd_example. Qed.
 
 
+(* "... and stays forgotten unless it really" comes back: a node that IS alive comes back at its first digest - a node's digest
+   always lists the node itself, and ApplyDigest adds every listed node it does not know that is not flagged left. Whatever the
+   observer b remembers or has forgotten, after applying the digest of the live node a it knows a again *)
+Theorem C11_forgotten_live_node_relearned :
+  forall (a b : cstate) (sa : node_state),
+  lookup (c_local a) (c_nodes a) = Some sa -> n_id sa = c_local a -> n_left sa = false ->
+  mem (c_local a) (c_nodes (fst (apply_digest b (digest_of a)))) = true.
+Proof. exact forgotten_live_node_relearned. Qed.
+
 Print Assumptions C11_no_relearn_left.
 Print Assumptions C11_left_is_final.
 Print Assumptions C11_leave_marks_and_stamps.
@@ -130,3 +139,4 @@ Print Assumptions C11_only_self_leaves.
 Print Assumptions C11_refuted_zombie.
 Print Assumptions C11_silent_stays_unreachable.
 Print Assumptions C11_heard_is_reachable.
+Print Assumptions C11_forgotten_live_node_relearned.
